@@ -104,3 +104,9 @@ package hashmap
 //@   ensures [C12] atomic: result != nil ==> (forall k like keyof(m.m) :: (Has(m, k) <==> old(Has(m, k))) && (Has(m, k) ==> Val(m, k) == old(Val(m, k))))
 //@   ensures [C11 C12] loaded: jobj_kind(bytes, keyof(m.m), valof(m.m)) == 3 ==> (forall k like keyof(m.m) :: (jobj_has(bytes, k, valof(m.m)) <==> Has(m, k)) && (Has(m, k) ==> Val(m, k) == jobj_val(bytes, k, valof(m.m)))) && Card(m) == jobj_card(bytes, keyof(m.m), valof(m.m))
 //@   ensures [C12] null: jobj_kind(bytes, keyof(m.m), valof(m.m)) == 2 ==> Card(m) == 0
+
+//@ -- String: starts with the container's name; reads only (C15, C18)
+//@ func Map.String
+//@   requires Inv(m)
+//@   modifies nothing
+//@   ensures [C15 C17 C18] hasPrefix(result, "HashMap")
